@@ -429,6 +429,11 @@ fn update_internal(_: &UpdaterLockState, channel: Option<&str>) -> anyhow::Resul
     // This makes it so we never try to write to the UpdateState file from
     // two threads at once. We could give UpdateState its own lock instead.
     with_mut_state(|state| {
+        // The patch may have been marked bad (e.g. a launch failure was reported) while we were
+        // downloading it without holding the lock; never install a known bad patch.
+        if state.is_known_bad_patch(patch.number) {
+            return Ok(UpdateStatus::UpdateIsBadPatch);
+        }
         let patch_info = PatchInfo {
             path: output_path,
             number: patch.number,
